@@ -164,5 +164,5 @@ pub fn run(ctx: &mut Ctx) {
     ctx.meta.push(("exhaustive_part", json::s(format!("all pairs over alphabet size {}", k))));
     ctx.meta.push(("histogram", hist.json()));
     ctx.meta.push(("samples", J::A(samples)));
-    ctx.meta.push(("shards", J::A(files)));
+    ctx.shards.extend(files);
 }
